@@ -98,6 +98,83 @@ def chord_crossings(poly, p1, p2):
     return sorted(ts)
 
 
+def contour_index_correspondence(chk, n):
+    """theories/Model_Contour.v (vm_compute) against the real PsiContour on random histories of insert / temporaryExtend / reverse, incl. negative indices"""
+    import re
+    rng = random.Random(chk.seed + 7)
+    cases = []
+    for k in range(n):
+        m = rng.randint(2, 7)
+        ids = list(range(10, 10 + m))
+        si = rng.randint(0, m - 1)
+        ei = rng.randint(si, m - 1)
+        if rng.random() < 0.35:
+            ei = ei - m            # the same end point, counted from the end
+        ops, cur, nid = [], m, 100
+        for _ in range(rng.randint(1, 6)):
+            r = rng.random()
+            if r < 0.5:
+                ops.append(["insert", rng.randint(-cur - 2, cur + 2), nid]); cur += 1
+            elif r < 0.7:
+                ops.append(["lower", nid]); cur += 1
+            elif r < 0.9:
+                ops.append(["upper", nid]); cur += 1
+            elif ei >= 0:
+                ops.append(["reverse"])
+            nid += 1
+        cases.append(dict(ids=ids, si=si, ei=ei, ops=ops))
+    rc, res, o, e = common.run_impl_json("impl/contour.py", dict(cases=cases), timeout=300)
+    if res is None:
+        chk.tie_broken("impl/contour.py", f"implementation run failed rc={rc}: {(o + e)[-800:]}")
+        return 0
+    z = lambda v: f"({v})" if v < 0 else str(v)
+    items, idx = [], []
+    for i, (c, r) in enumerate(zip(cases, res)):
+        if isinstance(r, dict):
+            chk.tie_broken("impl/contour.py:case", f"{c}: {r['error']}")
+            continue
+        ops = "; ".join({"insert": lambda op: f"Insert {z(op[1])} {op[2]}", "lower": lambda op: f"ExtendLower {op[1]}", "upper": lambda op: f"ExtendUpper {op[1]}", "reverse": lambda op: "Reverse"}[op[0]](op) for op in c["ops"])
+        items.append(f"same (fold_left apply_op [{ops}] (mkc [{'; '.join(map(str, c['ids']))}] {z(c['si'])} {z(c['ei'])})) (mkc [{'; '.join(map(str, r[0]))}] {z(r[1])} {z(r[2])})")
+        idx.append(i)
+    text = ("From Coq Require Import ZArith List Bool. Import ListNotations.\nFrom HT Require Import Model_Contour.\nLocal Open Scope Z_scope.\n"
+            "Fixpoint leq (a b : list Z) : bool := match a, b with [], [] => true | x :: s, y :: t => (x =? y) && leq s t | _, _ => false end.\n"
+            "Definition same (a b : contour) : bool := leq (pts a) (pts b) && (si a =? si b) && (ei a =? ei b).\n"
+            "Definition rs : list bool := [\n" + ";\n".join(items) + "].\n"
+            "Eval vm_compute in (length (filter (fun b => b) rs), length rs).\n"
+            "Eval vm_compute in (map fst (filter (fun x => negb (snd x)) (combine (seq 0 (length rs)) rs))).\n")
+    rcq, oq, eq = common.coq_eval("cases_C11_contour", text)
+    m = re.search(r"\((\d+)(?:%nat)?,\s*(\d+)(?:%nat)?\)", oq.replace("\n", " "))
+    agree = int(m.group(1)) if m else 0
+    if rcq != 0 or not m or m.group(1) != m.group(2):
+        bad = [int(b) for b in re.findall(r"\d+", oq.split("=")[-1])][:4] if m else []
+        chk.tie_broken("model:contour-indices", f"model and PsiContour disagree on {len(items) - agree} of {len(items)} histories: {(oq + eq)[-300:]}")
+        # the property on the implementation's own result: a history of inserts / extensions keeps startInd and endInd on the points they designated
+        for b in bad:
+            if b < len(idx):
+                c, r = cases[idx[b]], res[idx[b]]
+                chk.notes.setdefault("contour_disagreements", []).append({"case": c, "implementation": r})
+    # the property itself, on the implementation (histories without reverse, non-negative indices, inserts inside the list)
+    nprop = 0
+    for c, r in zip(cases, res):
+        if isinstance(r, dict) or c["ei"] < 0 or any(op[0] == "reverse" for op in c["ops"]):
+            continue
+        cur, ok = len(c["ids"]), True
+        for op in c["ops"]:
+            if op[0] == "insert" and not (0 <= op[1] <= cur):
+                ok = False
+            cur += 1
+        if not ok:
+            continue
+        nprop += 1
+        want_s, want_e = c["ids"][c["si"]], c["ids"][c["ei"]]
+        got_s, got_e = r[0][r[1]], r[0][r[2]]
+        if (got_s, got_e) != (want_s, want_e):
+            chk.fail("contour:end-points-moved", "after a history of insert / temporaryExtend calls startInd or endInd no longer designate the points they designated before (the target point of a contour would be another point)",
+                     {"case": c, "result": r, "start_end_before": [want_s, want_e], "start_end_after": [got_s, got_e]})
+    chk.notes["contour_index_correspondence"] = {"histories": len(cases), "agree": agree, "property_checked_on": nprop}
+    return agree
+
+
 def run(chk):
     np.seterr(all="ignore")
     translate(chk)
@@ -361,6 +438,7 @@ def run(chk):
             if bad:
                 chk.tie_broken("model:penalty", f"{len(bad)} of {len(cells)} cells: the model's penalty differs from penalty_mask, first: {bad[0]}")
             chk.notes["model_correspondence"] = {"walls": len(walls), "cells": len(cells), "cell_disagreements": len(bad)}
+    n += contour_index_correspondence(chk, 300 if chk.tier == "quick" else 3000)
     chk.count(evaluations=n, distinct=n)
     chk.cov["rule"] = ("every cell of every region of the tokamak corpus grids (rectangular clockwise input, slanted and many-vertex anticlockwise walls in the thorough tier; orthogonal and "
                        "non-orthogonal; guard counts 0..2): penalty_mask against an independent ray-casting evaluation; target points on the wall / on their flux surface; cell centres inside / "
